@@ -267,8 +267,11 @@ BEHAVIOUR = [
     ("fiber-with-child",
      "(def orig (fiber/new (fn [] (def ch (fiber/new (fn [] (yield %(a)d) (yield %(b)d) :cdone))) (yield (resume ch)) (yield (resume ch)) (yield (resume ch)) :done))) (resume orig)",
      "(fn [o] (string/join (map string [(resume o) (resume o) (resume o) (fiber/status o)]) \",\"))"),
+    ("fiber-suspended-in-child-signal",
+     "(def orig (fiber/new (fn [] (def ch (fiber/new (fn [] (def got (debug)) (yield [got %(a)d]) :cdone) :y)) (def r1 (resume ch)) (def r2 (resume ch)) [r1 r2 (fiber/status ch)]) :a)) (resume orig)",
+     "(fn [o] (string/format \"%%j\" [(fiber/status o) (resume o %(b)d) (fiber/status o)]))"),
     ("fiber-captures-shared-var",
-     "(var shared %(a)d) (def getter (fn [] shared)) (def fb (fiber/new (fn [] (forever (yield (++ shared)))))) (resume fb) (def orig [fb getter])",
+     "(defn mk [] (var shared %(a)d) (def getter (fn [] shared)) (def fb (fiber/new (fn [] (forever (yield (++ shared)))))) (resume fb) [fb getter]) (def orig (mk))",
      "(fn [o] (string (resume (o 0)) \",\" ((o 1)) \",\" (resume (o 0)) \",\" ((o 1))))"),
     ("channel-with-items",
      "(def orig (ev/chan 8)) (ev/give orig %(a)d) (ev/give orig [1 \"s\" :k]) (ev/give orig @{:t %(b)d})",
@@ -290,7 +293,7 @@ PEG_DIRECTED = [
     ("backref-replace", "~(/ (* (<- :a :t) (-> :t)) ,f-join)", ["ab", "z"]),
     ("backref-accumulate", "~(% (* (<- :a :t) \"-\" (-> :t) (-> :t)))", ["a-", "b-x"]),
     ("backref-cmt", "~(cmt (* (<- 1 :x) (-> :x)) ,f-join)", ["q", ""]),
-    ("backref-lenprefix", "~(* (number :d :len) (lenprefix (-> :len) (<- 1)))", ["3abc", "2ab", "1"]),
+    ("backref-lenprefix", "~(* (number :d nil :len) (lenprefix (-> :len) (<- 1)))", ["3abc", "2ab", "1"]),
     ("backref-group", "~(group (* (<- :a :t) (group (-> :t))))", ["a"]),
     ("backmatch", "~(* (<- :a+ :w) \" \" (backmatch :w))", ["ab ab", "ab ba"]),
     ("unref", "~(* (unref (<- :a :t)) (+ (-> :t) (constant :none)))", ["a"]),
@@ -385,15 +388,15 @@ def run(ctx):
     # ---- behavioural round trips
     def do_beh(bi):
         rng = random.Random(ctx.sub_seed("beh", bi))
-        lines = [PRELUDE]
+        lines = [PRELUDE, "(defn get-ok [r] (if (r 0) (r 1) (error (string \"round trip raised: \" (r 1)))))"]
         exp = []
         for ci in range(12):
-            p = dict(a=rng.choice([0, 1, 2, 3, 7, 100, -5]), b=rng.choice([1, 2, 5, 11]), c=rng.choice([0, 1, 5, 12]),
+            p = dict(a=rng.choice([0, 1, 2, 3, 7, 100, -5]), b=rng.choice([1, 2, 5, 11]), c=rng.choice([0, 1, 5, 12]), sig=rng.choice([5, 6, 7]),
                      s=rng.choice([-2 ** 63, -1, 0, 2 ** 63 - 1]), u=rng.choice([0, 2 ** 64 - 1, 2 ** 63]))
             name, setup, driver = rng.choice(BEHAVIOUR)
             bid = "b%d" % ci
-            lines.append("(do %s\n (def drv %s)\n (def c1 (rt-dict orig)) (def c2 (rt-dict orig))\n"
-                         " (report \"%s\" \"copy2-independent\" (fn [] (drv c2)))\n (report \"%s\" \"orig\" (fn [] (drv orig)))\n (report \"%s\" \"copy\" (fn [] (drv c1))))" %
+            lines.append("(do %s\n (def drv %s)\n (def c1 (protect (rt-dict orig))) (def c2 (protect (rt-dict orig)))\n"
+                         " (report \"%s\" \"copy2-independent\" (fn [] (drv (get-ok c2))))\n (report \"%s\" \"orig\" (fn [] (drv orig)))\n (report \"%s\" \"copy\" (fn [] (drv (get-ok c1)))))" %
                          (setup % p, driver % p, bid, bid, bid))
             exp.append((bid, name, setup % p, driver % p))
         # closures marshalled while their environment is still on the creator's stack, with the captured slots at various register numbers
@@ -458,6 +461,9 @@ def run(ctx):
         for bid, name, setup, driver in exp:
             g2 = got.get(bid)
             if not g2 or "orig" not in g2:
+                if not (bid.startswith("p") and not g2):     # random PEG sources that do not compile print nothing by design
+                    ctx.violation("no-output:behaviour:" + name.split(":")[0], "behaviour case %s (%s) produced no trace: the script ended early; stderr %r" % (bid, name, res.err[-300:]), files)
+                    break
                 continue
             for tag in ("copy", "copy2-independent"):
                 if tag not in g2:
